@@ -214,6 +214,15 @@ Example C08_scrub_bad_touched_stale_keeps_mark :
              [mkST true false true true true (SdOk true); mkST true false true false true (SdOk true)] [SpOk false] in
   sc_info r = mkInfo 8 true false true /\ sc_nerr r = 1 /\ sc_nio r = 0 /\ sc_nsilent r = 0.
 Proof. exact scrub_bad_touched_stale_keeps_mark. Qed.
+(* the parity outcomes are a LIST, one per level: scrub_read_error_safe and scrub_clears_bad_only_verified hold for an EIO on any
+   subset of the levels, not only when every level fails *)
+Example C08_scrub_partial_parity_eio_marks_bad :
+  let disks := [mkST true false true false true (SdOk true); mkST true false true false true (SdOk true)] in
+  let r := scrub_stripe 100 0 77 (mkInfo 8 false false true) disks [SpOk true; SpIoCont; SpOk true] in
+  let r' := scrub_stripe 100 0 77 (mkInfo 8 true false false) disks [SpIoCont; SpOk true; SpIoCont] in
+  sc_info r = mkInfo 8 true false true /\ sc_nio r = 1 /\ sc_bail r = false /\
+  sc_info r' = mkInfo 8 true false false /\ sc_nio r' = 2 /\ sc_bail r' = false.
+Proof. exact scrub_partial_parity_eio_marks_bad. Qed.
 Example C08_scrub_unsynced_parity_eio_marks_bad :
   let r := scrub_stripe 100 0 77 (mkInfo 8 false false true)
              [mkST true true true false false (SdOk true); mkST true false true false true (SdOk true)] [SpIoCont] in
